@@ -18,7 +18,7 @@ use vh::wire::{self, Fti};
 #[global_allocator]
 static GLOBAL: alloc::Counting = alloc::Counting;
 
-const CLASSES: [&str; 11] = ["tiny", "short", "subst", "field_fti", "field_fti_any", "field_misc", "fdtxml", "fdt_oti", "fdt_id_reuse", "budget", "sequence"];
+const CLASSES: [&str; 12] = ["tiny", "short", "subst", "field_fti", "field_fti_any", "field_misc", "fdtxml", "fdt_oti", "fdt_id_reuse", "budget", "long_symbol", "sequence"];
 
 struct World {
     seed: u64,
@@ -41,6 +41,7 @@ fn class_size(w: &World, class: &str) -> u64 {
         "fdt_oti" => if w.thorough { 120_000 } else { 2400 },
         "fdt_id_reuse" => if w.thorough { 6000 } else { 320 },
         "budget" => if w.thorough { 120 } else { 30 },
+        "long_symbol" => if w.thorough { 96 } else { 24 },
         "sequence" => if w.thorough { 1_500_000 } else { 6000 },
         _ => 0,
     }
@@ -514,6 +515,29 @@ fn gen_seq(w: &World, class: &str, k: u64) -> Option<(Value, u64, Vec<Vec<u8>>)>
                 seq.extend(objs);
             }
             Some((json!({"class": "fdt_oti", "fec": fec, "attrs": attrs, "at_file_level": at_file, "L": l}), tsi, seq))
+        }
+        // one datagram of a block carries a payload far LONGER than the announced symbol size (extended / forged), the
+        // other K-1 symbols of the block are honest: what the receiver allocates when the block completes must follow what
+        // was received and announced (K x E), not the one long payload times K
+        "long_symbol" => {
+            let fec = [0u8, 0, 5, 129][(k % 4) as usize];
+            let kk = [512usize, 2048, 255, 255][(k % 4) as usize];
+            let e = 16usize;
+            let long = [1400usize, 60_000][((k / 4) % 2) as usize];
+            let long_esi = [0usize, kk - 1, kk / 2][((k / 8) % 3) as usize];
+            let tsi = 60 + (k % 4);
+            let toi: u128 = 21;
+            let l = (kk * e) as u64;
+            let fti = Fti { fec, l, e: e as u16, b: kk as u32, max_n: Some(kk as u32 + if fec == 0 { 0 } else { 0 }), instance: Some(0), z: Some(1), n: Some(1), al: Some(1), m: None, g: None };
+            let mut seq = vec![budget_marker(1 << 20, 4 << 20)];
+            let order: Vec<usize> = if (k / 24) % 2 == 0 { (0..kk).collect() } else { (0..kk).rev().collect() };
+            for esi in order {
+                let mut lct = wire::enc_lct(tsi, toi, fec);
+                lct.b = false;
+                let sz = if esi == long_esi { long } else { e };
+                seq.push(wire::encode(&lct, &[wire::ext_fti(&fti)], &wire::payload_id(fec, 0, esi as u32, kk as u16, 8), &vec![(esi % 251) as u8; sz]));
+            }
+            Some((json!({"class": "long_symbol", "fec": fec, "K": kk, "E": e, "long_payload": long, "at_esi": long_esi}), tsi, seq))
         }
         // "without allocating beyond the configured limits": well-formed packets of ONE large object of every scheme
         // that stays undecodable / unwritable (no FDT, first block withheld, one symbol of every block withheld), with a
